@@ -30,7 +30,7 @@ TLC_JOBS = int(os.environ.get("VERIF_TLC_JOBS") or 5)
 CLASSES = {"ab": ["a-b", "a_b"], "xq": ["x?", "x__Q__"], "print": ["print", "print_"],
            "class": ["class", "class_"], "v": ["v"]}
 POOLNAMES = ["a-b", "a_b", "x?", "x__Q__", "print", "print_", "class", "class_", "v"]
-SPELL = ["bare", "al", "fqA", "fqB", "loc", "var", "bind"]
+SPELL = ["bare", "al", "fqA", "fqB", "loc", "var", "bind", "redef"]
 UNRES, PRIV, AMB, ANY, ASSERT = -1, -2, -3, -4, -5
 DEVSETS = [[], ["MungeCollision"], ["StaleRefer"], ["MungeCollision", "StaleRefer"]]
 OPTSETS = {"direct": ({}, "d"), "indirect": ({"use_var_indirection": True}, "i"),
@@ -141,7 +141,10 @@ class World:
     def read_text(self, n, sp):
         return {"bare": n, "al": "al/" + n, "fqA": "%s/%s" % (self.A, n), "fqB": "%s/%s" % (self.B, n),
                 "loc": "(let [%s 99] %s)" % (n, n), "var": "(var %s)" % n,
-                "bind": "(binding [%s 77] %s)" % (n, n)}[sp]
+                "bind": "(binding [%s 77] %s)" % (n, n),
+                # the Var is def-ed again (same root, still dynamic) while a thread binding is in effect; this changes
+                # the module global, so it is only read at the end of a history (see read_all)
+                "redef": "(binding [%s 77] (def ^:dynamic %s (.-root (var %s))) %s)" % (n, n, n, n)}[sp]
 
     def encode(self, v, names):
         """real value -> outcome code of the specification"""
@@ -177,17 +180,20 @@ def spec_code(c):
     return "cerr" if c in (UNRES, PRIV) else ("assert" if c == ASSERT else c)
 
 
-def read_all(w, names, table, mode, per_read):
+def read_all(w, names, table, mode, per_read, final=False):
     """compile + evaluate every applicable read of the current state; -> list of (name, spelling, allowed, impl, obs)"""
     cells = []
     for k, n in enumerate(names):
         for s, sp in enumerate(SPELL):
             cell = table[k][s][mode]
-            if ANY in cell["r"]:
+            if ANY in cell["r"] or (sp == "redef" and not final):
                 continue
             cells.append((n, sp, [spec_code(c) for c in cell["r"]], [spec_code(c) for c in cell["i"]]))
+    cells.sort(key=lambda c: c[1] == "redef")        # stable: the state-changing reads come after all the others
     out = []
-    group = [c for c in cells if "cerr" not in c[2]] if not per_read else []
+    # (the state-changing reads are not put into the vector: the generator hoists statements of later elements
+    #  above the expressions of earlier ones -- the known evaluation-order finding of C02)
+    group = [c for c in cells if "cerr" not in c[2] and c[1] != "redef"] if not per_read else []
     got = None
     if group:
         try:
@@ -262,7 +268,7 @@ def replay_history(w, names, hist, tables, optname, every_step, per_read=False):
                 if w.cur.name != w.nsname(cur):
                     bad.append(("Names!InNs", {"step": k}, cur, w.cur.name, "cur:wrong-namespace"))
                     break
-                for n, sp, allowed, impl, obs in read_all(w, names, table, mode, per_read):
+                for n, sp, allowed, impl, obs in read_all(w, names, table, mode, per_read, final=(k == len(hist))):
                     nreads += 1
                     c = classify(allowed, impl, obs)
                     if c is None:
